@@ -78,6 +78,12 @@ func runDoc(c Case, e *env) []Event {
 			evs = append(evs, f)
 		}
 	}
+	if e.prop == "C03" || e.prop == "C02" {
+		// the text blocks after every text filter (verif hook TextFilter)
+		if b := blocksEvent(c.ID, out.hooks); b != nil {
+			evs = append(evs, b)
+		}
+	}
 	return append(evs, Event{"ev": "Return", "run": c.ID, "obs": obs})
 }
 
@@ -199,4 +205,56 @@ func filterEvent(run int, hooks []vtrace.Event) Event {
 	count("filter_lists")
 	return Event{"ev": "Filters", "run": run, "order": order, "before": before,
 		"rel": after["RelevantElements"], "lead": after["LeadImage"], "nested": after["NestedElementRetainer"]}
+}
+
+// blocksEvent: the list of text blocks after every text filter of the LAST conversion pass (hook TextFilter),
+// and the content flags of the Text elements after ApplyToModel (hook Pass); spec/trace/DocTrace.tla checks
+// every step against spec/TextBlocks.tla.
+func blocksEvent(run int, hooks []vtrace.Event) Event {
+	var steps []map[string]interface{}
+	var flags []bool
+	for _, h := range hooks {
+		kv := hookKV(h)
+		switch h.Name {
+		case "TextFilter":
+			blocks := []map[string]interface{}{}
+			if l, ok := kv["blocks"].([]interface{}); ok {
+				for _, x := range l {
+					m, _ := x.(map[string]interface{})
+					texts := []int{}
+					if tl, ok := m["texts"].([]interface{}); ok {
+						for _, t := range tl {
+							if v, ok := t.(int); ok {
+								texts = append(texts, v)
+							}
+						}
+					}
+					blocks = append(blocks, map[string]interface{}{"texts": texts, "c": m["c"] == true})
+				}
+			}
+			steps = append(steps, map[string]interface{}{"name": fmt.Sprint(kv["name"]), "blocks": blocks})
+		case "Pass":
+			// a pass is complete: its steps are the ones to judge unless another pass follows
+			flags = flags[:0]
+			if l, ok := kv["elems"].([]interface{}); ok {
+				for _, x := range l {
+					if m, _ := x.(map[string]interface{}); m != nil && m["k"] == "text" {
+						flags = append(flags, m["c"] == true)
+					}
+				}
+			}
+		}
+	}
+	if len(steps) == 0 {
+		return nil
+	}
+	// the steps of the last pass: the pipeline has 16 log points per pass ("Start" opens a pass)
+	last := 0
+	for i, st := range steps {
+		if st["name"] == "Start" {
+			last = i
+		}
+	}
+	count("block_lists")
+	return Event{"ev": "Blocks", "run": run, "steps": steps[last:], "flags": append([]bool{}, flags...)}
 }
